@@ -141,6 +141,29 @@ Theorem c08_marking_fns_complete :
   forallb (fun r => match r with (n, m, _, _, _) => bmem n mutating_engine_fns || (m =? 0) end) engine_census = true.
 Proof. exact non_mutating_fns_do_not_mark. Qed.
 
+(** Ending a watch (UNWATCH, EXEC, DISCARD, disconnect) never touches a counter that another
+    watcher compares against: in the model by definition, in engine.rs by the regenerated list of
+    the functions that write each field of ShardWatchTracker. *)
+Theorem c08_unregister_keeps_counters :
+  forall t k k', counter_of (unregister_watch t k) k' = counter_of t k'.
+Proof. exact unregister_keeps_counters. Qed.
+Theorem c08_tracker_writers :
+  watch_key_counter_writers = [bs "mark_key_modified"] /\
+  watch_global_counter_writers = [bs "mark_key_modified"] /\
+  watch_active_writes = [(bs "register_watch", bs "fetch_add"); (bs "unregister_watch", bs "fetch_sub")].
+Proof. exact tracker_writers_ok. Qed.
+Example c08_two_watchers_history :
+  let s0 := connect (connect (connect (init_server None) 1) 2) 3 in
+  let step c s req := snd (process_frame 0 s c (FArray (map FBulk req)) None) in
+  let s1 := step 1 s0 [bs "WATCH"; bs "k"] in
+  let s2 := step 2 s1 [bs "WATCH"; bs "k"] in
+  let s3 := step 3 s2 [bs "SET"; bs "k"; bs "changed"] in
+  let s4 := step 2 s3 [bs "UNWATCH"] in
+  let s5 := step 1 s4 [bs "MULTI"] in
+  let s6 := step 1 s5 [bs "SET"; bs "k"; bs "mine"] in
+  fst (process_frame 0 s6 1 (FArray [FBulk (bs "EXEC")]) None) = FNullArray.
+Proof. vm_compute. reflexivity. Qed.
+
 (** non-vacuity: a lost-update attempt is caught *)
 Example c08_example :
   let s0 := connect (connect (init_server None) 1) 2 in
